@@ -49,8 +49,6 @@ Hypothesis dec_enc : forall b, dec (enc b) = b.
 Hypothesis enc_len : forall b, blen (enc b) = blen b.
 Hypothesis open_seal : forall n p, open n (seal n p) = Some p.
 Hypothesis seal_len : forall n p, blen (seal n p) = blen p + aead_ov.
-Hypothesis aead_ns_nonneg : 0 <= aead_ns.
-Hypothesis aead_ov_nonneg : 0 <= aead_ov.
 Hypothesis crc_range : forall b, 0 <= crc b < W32.
 
 Local Notation frame := (Frame.frame K).
@@ -65,14 +63,14 @@ Local Notation cipher_hdr := (Frame.cipher_hdr K).
 
 Lemma frame_crc_plain nonce body :
   dec (frame CCrc nonce body) = nonce ++ le32 (crc body) ++ body.
-Proof. unfold Frame.frame. apply dec_enc. Qed.
+Proof using dec_enc. unfold Frame.frame. apply dec_enc. Qed.
 
 Lemma frame_len c nonce body :
   blen nonce = nonce_len c ->
   blen (frame c nonce body) =
     cipher_hdr c + blen body + (if cipher_eqb c CAead then aead_ov else 0).
-Proof.
-  intros Hn. destruct c; unfold Frame.frame, Frame.cipher_hdr, Frame.nonce_len in *; cbn [cipher_eqb].
+Proof using enc_len seal_len.
+  intros Hn. destruct c; unfold Frame.frame, Frame.cipher_hdr, Frame.nonce_len in Hn |- *; cbn [cipher_eqb].
   - lia.
   - rewrite enc_len, !blen_app, blen_le32, Hn. unfold c_cryptHeaderSize, c_nonceSize. lia.
   - rewrite blen_app, seal_len, Hn. lia.
@@ -81,7 +79,7 @@ Qed.
 (* the packet body the FEC stage produces for a data request *)
 Lemma fec_encode_pkt e x now rto :
   snd (fst (fec_encode rs_encode e x now rto)) = fec_hdr (fe_next e) c_typeData ++ size_prefixed x.
-Proof.
+Proof using Type.
   unfold fec_encode.
   destruct (fe_count e + 1 =? fe_d e); [|reflexivity].
   destruct (now - fe_ts e <? rto); [|reflexivity].
@@ -94,7 +92,7 @@ Lemma stage1_data_body fe kcp now :
          | None => kcp
          | Some e => le32 (fe_next e) ++ le16 c_typeData ++ le16 (u16 (blen kcp + 2)) ++ kcp
          end.
-Proof.
+Proof using Type.
   destruct fe as [e|]; cbn [Frame.stage1 rq_oob rq_payload]; [|reflexivity].
   pose proof (fec_encode_pkt e kcp now c_maxFECEncodeLatency) as H.
   destruct (fec_encode rs_encode e kcp now c_maxFECEncodeLatency) as [[e1 b] ps].
@@ -104,7 +102,7 @@ Qed.
 Lemma stage1_oob_body e payload now :
   stage1 (Some e) (mkReq payload true) now =
   (Some e, le32 oob_seqid ++ le16 c_typeOOB ++ le16 (u16 (blen payload + 2)) ++ payload, []).
-Proof. cbn [Frame.stage1 rq_oob rq_payload encode_oob]. rewrite fec_body_eq. reflexivity. Qed.
+Proof using Type. cbn [Frame.stage1 rq_oob rq_payload encode_oob]. rewrite fec_body_eq. reflexivity. Qed.
 
 Theorem frame_layout c nonce fe kcp now :
   let '(_, body, _) := stage1 fe (mkReq kcp false) now in
@@ -122,7 +120,7 @@ Theorem frame_layout c nonce fe kcp now :
   (blen nonce = nonce_len c ->
    blen (frame c nonce body) =
      cipher_hdr c + blen body + (if cipher_eqb c CAead then aead_ov else 0)).
-Proof.
+Proof using dec_enc enc_len seal_len.
   pose proof (stage1_data_body fe kcp now) as H.
   destruct (stage1 fe (mkReq kcp false) now) as [[fe1 body] ps].
   split; [exact H|]. split; [destruct c; reflexivity|]. split.
@@ -134,8 +132,8 @@ Qed.
 
 Lemma spec_strip_frame c nonce body :
   blen nonce = nonce_len c -> spec_strip c (frame c nonce body) = Some body.
-Proof.
-  intros Hn. destruct c; unfold Frame.spec_strip, Frame.frame, Frame.nonce_len in *.
+Proof using dec_enc open_seal crc_range.
+  intros Hn. destruct c; unfold Frame.spec_strip, Frame.frame, Frame.nonce_len in Hn |- *.
   - reflexivity.
   - rewrite dec_enc. unfold c_nonceSize in Hn.
     pose proof (blen_nonneg body).
@@ -155,7 +153,7 @@ Qed.
 
 Lemma spec_segments_encode segs :
   Forall wseg_ok segs -> segs <> [] -> spec_segments (encode_segs segs) = Some segs.
-Proof.
+Proof using Type.
   intros Hok Hne. unfold spec_segments. rewrite parse_all_encode by assumption.
   destruct segs; [congruence|reflexivity].
 Qed.
@@ -172,7 +170,7 @@ Theorem spec_decoder_data c nonce fe segs now :
   blen (encode_segs segs) + 2 < 65536 ->
   let '(_, body, _) := stage1 fe (mkReq (encode_segs segs) false) now in
   spec_decode c (fec_on fe) (frame c nonce body) = Some (SpData (fec_info fe (encode_segs segs)) segs).
-Proof.
+Proof using dec_enc open_seal crc_range.
   intros Hok Hne Hn Hnext Hsz.
   pose proof (stage1_data_body fe (encode_segs segs) now) as Hb.
   destruct (stage1 fe (mkReq (encode_segs segs) false) now) as [[fe1 body] ps].
@@ -201,10 +199,10 @@ Theorem spec_decoder_oob c nonce e conv payload now :
   let '(_, body, _) := stage1 (Some e) (mkReq (le32 conv ++ payload) true) now in
   spec_decode c true (frame c nonce body) =
     Some (SpOOB oob_seqid (blen payload + c_convSize + 2) conv payload).
-Proof.
+Proof using dec_enc open_seal crc_range.
   intros Hn Hc Hsz. rewrite stage1_oob_body.
   unfold Frame.spec_decode. rewrite spec_strip_frame by assumption.
-  pose proof (blen_nonneg payload) as Hk. unfold c_convSize in *.
+  pose proof (blen_nonneg payload) as Hk. unfold c_convSize in Hsz |- *.
   rewrite !blen_app, !blen_le32, !blen_le16.
   destruct (4 + (2 + (2 + (4 + blen payload))) <? 6) eqn:E1; [apply Z.ltb_lt in E1; lia|].
   destruct (4 + (2 + (2 + (4 + blen payload))) <? 8) eqn:E2; [apply Z.ltb_lt in E2; lia|].
@@ -225,7 +223,7 @@ Qed.
 Theorem spec_decoder_parity c nonce seqid par :
   blen nonce = nonce_len c -> is_u32 seqid ->
   spec_decode c true (frame c nonce (fec_hdr seqid c_typeParity ++ par)) = Some (SpParity seqid par).
-Proof.
+Proof using dec_enc open_seal crc_range.
   intros Hn Hs. unfold Frame.spec_decode. rewrite spec_strip_frame by assumption.
   unfold fec_hdr. rewrite <- app_assoc.
   pose proof (blen_nonneg par).
@@ -236,4 +234,277 @@ Proof.
   unfold c_typeParity. change (242 =? 242) with true. reflexivity.
 Qed.
 
+(* ---------------------------------------------------------------- fresh nonces, distinct datagrams *)
+Local Notation frame_all := (Frame.frame_all K).
+Local Notation pp_step := (Frame.pp_step rs_encode K).
+Local Notation pp_run := (Frame.pp_run rs_encode K).
+Local Notation stage1_run := (Frame.stage1_run rs_encode).
+Local Notation uses_nonce := Frame.uses_nonce.
+
+Lemma app_inj_len {A} (a c b d : list A) : length a = length c -> a ++ b = c ++ d -> a = c.
+Proof using Type.
+  revert c. induction a as [|x a IH]; intros [|y c] Hl H; try discriminate; [reflexivity|].
+  cbn in *. inversion H; subst. f_equal. apply IH; [lia|assumption].
+Qed.
+
+(* a datagram determines its nonce: Encrypt is injective (it has an inverse), and the AEAD
+   nonce travels in clear *)
+Lemma frame_inj_nonce c n1 n2 b1 b2 :
+  uses_nonce c = true -> blen n1 = blen n2 -> frame c n1 b1 = frame c n2 b2 -> n1 = n2.
+Proof using dec_enc.
+  intros Hu Hl H. assert (Hl' : length n1 = length n2) by (unfold blen in Hl; lia).
+  destruct c; [discriminate| |]; unfold Frame.frame in H.
+  - apply (f_equal dec) in H. rewrite !dec_enc in H. eapply app_inj_len; eassumption.
+  - eapply app_inj_len; eassumption.
+Qed.
+
+Definition frame_pair (c : cipher) (nb : bytes * bytes) : bytes := frame c (fst nb) (snd nb).
+
+Lemma frame_all_spec c : uses_nonce c = true -> forall bodies nonces,
+  (length bodies <= length nonces)%nat ->
+  frame_all c bodies nonces = (map (frame_pair c) (combine nonces bodies), skipn (length bodies) nonces).
+Proof using Type.
+  intros Hu. induction bodies as [|b t IH]; intros nonces Hl.
+  - cbn. destruct nonces; reflexivity.
+  - destruct nonces as [|n ns]; [cbn in Hl; lia|].
+    cbn [Frame.frame_all]. rewrite Hu. cbn [tl hd]. rewrite IH by (cbn in Hl; lia). reflexivity.
+Qed.
+
+Lemma frame_all_none bodies nonces : frame_all CNone bodies nonces = (bodies, nonces).
+Proof using Type.
+  induction bodies as [|b t IH]; [reflexivity|].
+  cbn [Frame.frame_all]. cbn [Frame.uses_nonce cipher_eqb negb]. rewrite IH. reflexivity.
+Qed.
+
+(* one iteration of postProcess consumes exactly one nonce per packet it emits - the data or
+   OOB packet and every parity packet - and the i-th packet carries the i-th of them *)
+Theorem fresh_nonce_each c fe r now nonces :
+  let '(fe1, b, ps) := stage1 fe r now in
+  let bodies := b :: ps in
+  (uses_nonce c = true -> (length bodies <= length nonces)%nat ->
+     pp_step c fe r now nonces =
+       (fe1, map (frame_pair c) (combine nonces bodies), skipn (length bodies) nonces)) /\
+  (c = CNone -> pp_step c fe r now nonces = (fe1, bodies, nonces)).
+Proof using Type.
+  unfold Frame.pp_step. destruct (stage1 fe r now) as [[fe1 b] ps]. cbn zeta. split.
+  - intros Hu Hl. rewrite frame_all_spec by assumption. reflexivity.
+  - intros ->. rewrite frame_all_none. reflexivity.
+Qed.
+
+(* all packet bodies of a run, in emission order *)
+Definition run_bodies (l : list (req * bytes * list bytes)) : list bytes :=
+  concat (map (fun x => snd (fst x) :: snd x) l).
+
+Lemma combine_app_l {A B} (l : list A) (a b : list B) : (length a <= length l)%nat ->
+  combine l (a ++ b) = combine l a ++ combine (skipn (length a) l) b.
+Proof using Type.
+  revert l. induction a as [|x a IH]; intros l Hl.
+  - destruct l; reflexivity.
+  - destruct l as [|y l]; [cbn in Hl; lia|]. cbn. f_equal. apply IH. cbn in Hl. lia.
+Qed.
+
+Lemma pp_run_spec c : uses_nonce c = true -> forall rs fe nonces,
+  (length (run_bodies (snd (stage1_run fe rs))) <= length nonces)%nat ->
+  pp_run c fe rs nonces =
+    (fst (stage1_run fe rs), map (frame_pair c) (combine nonces (run_bodies (snd (stage1_run fe rs))))).
+Proof using Type.
+  intros Hu. induction rs as [|[r now] rs IH]; intros fe nonces Hl.
+  - cbn. destruct nonces; reflexivity.
+  - cbn [Frame.pp_run Frame.stage1_run] in *. unfold Frame.pp_step.
+    destruct (stage1 fe r now) as [[fe1 b] ps].
+    destruct (stage1_run fe1 rs) as [fe2 l] eqn:Erun.
+    cbn [snd fst] in *. unfold run_bodies in Hl. cbn [map concat fst snd] in Hl.
+    fold (run_bodies l) in Hl. rewrite app_length in Hl.
+    rewrite frame_all_spec by (try assumption; lia).
+    specialize (IH fe1 (skipn (length (b :: ps)) nonces)). rewrite Erun in IH. cbn [fst snd] in IH.
+    rewrite IH by (rewrite skipn_length; lia).
+    unfold run_bodies at 2. cbn [map concat fst snd]. fold (run_bodies l).
+    rewrite combine_app_l by lia. rewrite map_app. reflexivity.
+Qed.
+
+Lemma NoDup_map_combine {A B C} (f : A * B -> C) :
+  (forall a1 a2 b1 b2, f (a1, b1) = f (a2, b2) -> a1 = a2) ->
+  forall (ns : list A) (bs : list B), NoDup ns -> NoDup (map f (combine ns bs)).
+Proof using Type.
+  intros Hinj. induction ns as [|n ns IH]; intros bs Hnd; [constructor|].
+  destruct bs as [|b bs]; [constructor|]. inversion Hnd as [|? ? Hnin Hnd']; subst.
+  cbn [combine map]. constructor; [|apply IH; assumption].
+  intros Hin. apply in_map_iff in Hin as ((n', b') & Hf & Hin).
+  apply Hinj in Hf. subst n'. apply in_combine_l in Hin. contradiction.
+Qed.
+
+(* With a cipher configured: pairwise distinct nonces give pairwise distinct datagrams - data,
+   retransmissions (they are new requests), pure ACK/probe packets, parity and OOB alike. *)
+Theorem distinct c fe rs nonces :
+  uses_nonce c = true ->
+  Forall (fun n => blen n = nonce_len c) nonces ->
+  NoDup nonces ->
+  (length (run_bodies (snd (stage1_run fe rs))) <= length nonces)%nat ->
+  NoDup (snd (pp_run c fe rs nonces)).
+Proof using dec_enc.
+  intros Hu Hlen Hnd Hl. rewrite pp_run_spec by assumption. cbn [snd].
+  set (bodies := run_bodies (snd (stage1_run fe rs))) in *.
+  (* restrict to the nonces actually used so that the length hypothesis applies to all of them *)
+  assert (Hgen : forall ns bs, Forall (fun n => blen n = nonce_len c) ns -> NoDup ns ->
+                 NoDup (map (frame_pair c) (combine ns bs))).
+  { induction ns as [|n ns IH]; intros bs HF HN; [constructor|].
+    destruct bs as [|b bs]; [constructor|].
+    inversion HF as [|? ? Hn HF']; subst. inversion HN as [|? ? Hnin HN']; subst.
+    cbn [combine map]. constructor; [|apply IH; assumption].
+    intros Hin. apply in_map_iff in Hin as ((n', b') & Hf & Hin).
+    pose proof (in_combine_l _ _ _ _ Hin) as Hin'.
+    unfold frame_pair in Hf. cbn [fst snd] in Hf.
+    apply frame_inj_nonce in Hf; [subst; contradiction|assumption|].
+    rewrite Forall_forall in HF'. rewrite (HF' n' Hin'), Hn. reflexivity. }
+  apply Hgen; assumption.
+Qed.
+
+(* ---------------------------------------------------------------- packetInput inverts frame *)
+Lemma unframe_frame c nonce body :
+  blen nonce = nonce_len c -> min_pkt <= blen body -> unframe c (frame c nonce body) = Some body.
+Proof using dec_enc enc_len open_seal seal_len crc_range.
+  intros Hn Hmin. pose proof (blen_nonneg body) as Hb.
+  assert (Hfin : (if blen body <? min_pkt then None else Some body) = Some body).
+  { destruct (blen body <? min_pkt) eqn:E; [apply Z.ltb_lt in E; lia|reflexivity]. }
+  destruct c; unfold Frame.unframe, Frame.frame, Frame.nonce_len in Hn |- *.
+  - exact Hfin.
+  - rewrite enc_len, dec_enc. rewrite !blen_app, blen_le32, Hn.
+    unfold c_cryptHeaderSize, c_nonceSize, c_crcSize in Hn, Hmin, Hfin |- *.
+    destruct (16 + (4 + blen body) <? 20) eqn:E; [apply Z.ltb_lt in E; lia|].
+    rewrite zdrop_app_len by assumption.
+    rewrite (zdrop_app_len 4 (le32 (crc body)) body) by reflexivity.
+    rewrite rd32_le32 by apply crc_range. rewrite Z.eqb_refl. exact Hfin.
+  - rewrite blen_app, seal_len, Hn.
+    destruct (aead_ns + (blen body + aead_ov) <? aead_ns + aead_ov) eqn:E; [apply Z.ltb_lt in E; lia|].
+    rewrite ztake_app_len, zdrop_app_len by assumption. rewrite open_seal. exact Hfin.
+Qed.
+
+(* ---------------------------------------------------------------- C19 *)
+Section Rx.
+Variables Core Dec : Type.
+Variable core_input : Core -> bytes -> Z -> Core.
+Variable dec_new : Z -> Z -> Dec.
+Variable dec_decode : Dec -> bytes -> Dec * list bytes.
+Local Notation kcp_input := (Frame.kcp_input Core Dec core_input dec_new dec_decode).
+Local Notation packet_input := (Frame.packet_input K Core Dec core_input dec_new dec_decode).
+
+(* an 0xF3 packet changes neither the core nor the decoder (whose state includes autotune) *)
+Lemma kcp_input_oob st data :
+  rd16 (skipn 4 data) = c_typeOOB ->
+  kcp_input st data =
+    (st, if rx_handler _ _ st then [EvOOB (zdrop (c_fecHeaderSizePlus2 + c_convSize) data)] else []).
+Proof using Type.
+  intros H. unfold Frame.kcp_input. rewrite H. unfold c_typeOOB, c_typeData, c_typeParity.
+  change ((243 =? 241) || (243 =? 242)) with false. change (243 =? 243) with true. reflexivity.
+Qed.
+
+Theorem no_disturb_rx st data :
+  rd16 (skipn 4 data) = c_typeOOB -> fst (kcp_input st data) = st.
+Proof using Type. intros H. rewrite kcp_input_oob by assumption. reflexivity. Qed.
+
+Theorem no_disturb_rx_packet c st dgram d :
+  unframe c dgram = Some d -> rd16 (skipn 4 d) = c_typeOOB -> fst (packet_input c st dgram) = st.
+Proof using Type. intros Hu Ht. unfold Frame.packet_input. rewrite Hu. apply no_disturb_rx. exact Ht. Qed.
+
+(* SendOOB -> encodeOOB -> nonce/CRC/encrypt -> wire -> packetInput -> kcpInput -> handler *)
+Theorem oob_roundtrip c e nonce conv payload mtu now st :
+  blen nonce = nonce_len c -> is_u32 conv ->
+  c_convSize + blen payload <= mtu ->
+  rx_handler _ _ st = true ->
+  exists r, send_oob (Some e) mtu conv payload false = OobQueued r /\
+    let '(fe1, body, ps) := stage1 (Some e) r now in
+    fe1 = Some e /\ ps = [] /\
+    packet_input c st (frame c nonce body) = (st, [EvOOB payload]).
+Proof using dec_enc enc_len open_seal seal_len crc_range.
+  intros Hn Hc Hm Hh. unfold send_oob.
+  destruct (mtu <? c_convSize + blen payload) eqn:E; [apply Z.ltb_lt in E; lia|].
+  eexists. split; [reflexivity|].
+  rewrite stage1_oob_body. split; [reflexivity|]. split; [reflexivity|].
+  pose proof (blen_nonneg payload) as Hp.
+  unfold Frame.packet_input. rewrite unframe_frame; [|assumption|].
+  - rewrite kcp_input_oob.
+    + rewrite Hh. unfold c_fecHeaderSizePlus2, c_convSize.
+      change (zdrop (8 + 4) (le32 oob_seqid ++ le16 c_typeOOB ++ le16 (u16 (blen (le32 conv ++ payload) + 2)) ++ le32 conv ++ payload))
+        with payload. reflexivity.
+    + rewrite skipn4_hdr. apply rd16_le16. unfold c_typeOOB. lia.
+  - rewrite !blen_app, !blen_le32, !blen_le16. unfold min_pkt, c_IKCP_OVERHEAD, c_fecHeaderSizePlus2, c_convSize. lia.
+Qed.
+
+End Rx.
+
+Theorem oob_limits fe mtu conv data q :
+  (oob_is_error (send_oob fe mtu conv data q) = true <-> fe = None \/ mtu < c_convSize + blen data) /\
+  oob_max_size fe mtu = match fe with None => 0 | Some _ => mtu - c_convSize end /\
+  (forall e, fe = Some e ->
+     (blen data <= oob_max_size fe mtu <-> oob_is_error (send_oob fe mtu conv data q) = false)).
+Proof using Type.
+  unfold send_oob, oob_max_size. destruct fe as [e|].
+  - destruct (mtu <? c_convSize + blen data) eqn:E; [apply Z.ltb_lt in E|apply Z.ltb_ge in E].
+    + cbn [oob_is_error]. split; [split; [right; exact E|reflexivity]|]. split; [reflexivity|].
+      intros e' _. split; [lia|discriminate].
+    + assert (Hne : oob_is_error (if q then OobDropped else OobQueued (mkReq (le32 conv ++ data) true)) = false)
+        by (destruct q; reflexivity).
+      rewrite Hne. split; [split; [discriminate|intros [H|H]; [discriminate|lia]]|]. split; [reflexivity|].
+      intros e' _. split; [reflexivity|lia].
+  - cbn [oob_is_error]. split; [split; [left; reflexivity|reflexivity]|]. split; [reflexivity|].
+    intros e' H. discriminate.
+Qed.
+
+(* encodeOOB hands the encoder back untouched *)
+Lemma encode_oob_state e x : fst (encode_oob e x) = e.
+Proof using Type. reflexivity. Qed.
+
+Lemma stage1_oob_state fe r now : rq_oob r = true ->
+  fst (fst (stage1 fe r now)) = fe /\ snd (stage1 fe r now) = [].
+Proof using Type.
+  intros Ho. destruct fe as [e|]; cbn [Frame.stage1]; [rewrite Ho|]; split; reflexivity.
+Qed.
+
+Definition is_data (x : req * Z) : bool := negb (rq_oob (fst x)).
+Definition is_data_out (x : req * bytes * list bytes) : bool := negb (rq_oob (fst (fst x))).
+
+(* inserting OOB requests anywhere in the post-processing stream leaves the encoder's final
+   state and the whole sequence of data/parity packets (ids, sizes, parity bytes) identical *)
+Theorem no_disturb_tx : forall rs fe,
+  fst (stage1_run fe rs) = fst (stage1_run fe (filter is_data rs)) /\
+  filter is_data_out (snd (stage1_run fe rs)) = snd (stage1_run fe (filter is_data rs)).
+Proof using Type.
+  induction rs as [|[r now] rs IH]; intros fe; [split; reflexivity|].
+  cbn [filter]. change (is_data (r, now)) with (negb (rq_oob r)).
+  destruct (rq_oob r) eqn:Ho; cbn [negb].
+  - cbn [Frame.stage1_run].
+    pose proof (stage1_oob_state fe r now Ho) as (Hs & _).
+    destruct (stage1 fe r now) as [[fe1 b] ps]. cbn [fst] in Hs. subst fe1.
+    destruct (IH fe) as (A & B). destruct (stage1_run fe rs) as [fe2 l].
+    cbn [fst snd filter] in *. change (is_data_out (r, b, ps)) with (negb (rq_oob r)).
+    rewrite Ho. cbn [negb]. split; assumption.
+  - cbn [Frame.stage1_run]. destruct (stage1 fe r now) as [[fe1 b] ps].
+    destruct (IH fe1) as (A & B).
+    destruct (stage1_run fe1 rs) as [fe2 l]. destruct (stage1_run fe1 (filter is_data rs)) as [fe3 l'].
+    cbn [fst snd filter] in *. change (is_data_out (r, b, ps)) with (negb (rq_oob r)).
+    rewrite Ho. cbn [negb]. split; [assumption|f_equal; assumption].
+Qed.
+
 End Pipeline.
+
+(* ---------------------------------------------------------------- entropy.go: rngAES iterates a permutation
+   seed <- E_k(seed).  Two of its outputs coincide only if the seed orbit has closed. *)
+Lemma orbit_closes {A : Type} (f : A -> A) :
+  (forall x y, f x = f y -> x = y) ->
+  forall (i j : nat) (s : A), (i < j)%nat -> Nat.iter i f s = Nat.iter j f s -> Nat.iter (j - i) f s = s.
+Proof.
+  intros Hinj. induction i as [|i IH]; intros j s Hlt H.
+  - cbn in H. rewrite Nat.sub_0_r. symmetry. exact H.
+  - destruct j as [|j]; [lia|]. cbn [Nat.iter nat_rect] in H. apply Hinj in H.
+    cbn [Nat.sub]. apply IH; [lia|exact H].
+Qed.
+
+(* hence: as long as the seed has not come back to a previous value, all outputs differ *)
+Corollary orbit_outputs_distinct {A : Type} (f : A -> A) (s : A) (n : nat) :
+  (forall x y, f x = f y -> x = y) ->
+  (forall k, (0 < k < n)%nat -> Nat.iter k f s <> s) ->
+  forall i j, (i < j < n)%nat -> Nat.iter i f s <> Nat.iter j f s.
+Proof.
+  intros Hinj Hopen i j Hij Heq. apply (orbit_closes f Hinj i j s) in Heq; [|lia].
+  apply (Hopen (j - i)%nat); [lia|exact Heq].
+Qed.
